@@ -1,5 +1,6 @@
 import PgFdr.Json
 import PgFdr.Model.C10
+import PgFdr.Model.C10Glue
 namespace PgFdr.Driver
 open Lean PgFdr
 
@@ -115,7 +116,32 @@ def handleLookupC10 (j : Json) : R Json := do
   let qs ← jstrs (← jget j "peptides")
   pure (obj [("out", ofList (fun q => ofStrs (d.lookup q)) qs)])
 
+/-- the attributes of a parameter object as the harness reads them off a `DigestionParams` -/
+def ofParamsC10 (p : C09.Params) : Json :=
+  obj [("enzyme", .str p.enzyme), ("digestion", .str p.digestion), ("min", ofNat p.minL), ("max", ofNat p.maxL),
+       ("mc", ofNat p.mc), ("special", .str (String.ofList p.special)), ("met", .bool p.met),
+       ("db", .str (match p.db with | .target => "target" | .concat => "concat" | .decoy => "decoy")), ("hash", .bool p.useHash)]
+
+/-- `{"op":"c10_glue","params":[{"enzyme","digestion","min","max","mc","special","decoys"}…],"flag":bool}`: the
+    constructor arguments of one `DigestionParams` per evidence file and whether `--fasta_contains_decoys` is put on
+    the command line next to the rendered arguments →
+    `{"given":[…attributes…],"argv":[tokens of digestion_params_list_to_arg_list],"parsed":[…attributes…]}` or
+    `"parsed":{"err":"unequal_length"}` (`get_digestion_params_list` on the rendered arguments) -/
+def handleGlueC10 (j : Json) : R Json := do
+  let one (e : Json) : R C09.Params := do
+    pure (C09.mkParams (← jstr (← jget e "enzyme")) (← jstr (← jget e "digestion")) (← jnat (← jget e "min"))
+      (← jnat (← jget e "max")) (← jnat (← jget e "mc")) (← jstr (← jget e "special")) (← jbool (← jget e "decoys")))
+  let ps ← jlist one (← jget j "params")
+  let cd ← match jgetOpt j "flag" with
+    | some b => jbool b
+    | none => pure false
+  let parsed := match C10.throughGlue cd ps with
+    | .ok qs => ofList ofParamsC10 qs
+    | .error _ => ofErr "unequal_length"
+  pure (obj [("given", ofList ofParamsC10 ps), ("argv", ofStrs (C10.toArgv ps)), ("parsed", parsed)])
+
 /-- protocol handlers of property C10: (op name, handler) -/
 def handlersC10 : List (String × (Json → R Json)) :=
-  [("ingest", handleIngest), ("c10_strops", handleStrops), ("c10_lookup", handleLookupC10)]
+  [("ingest", handleIngest), ("c10_strops", handleStrops), ("c10_lookup", handleLookupC10),
+   ("c10_glue", handleGlueC10)]
 end PgFdr.Driver
